@@ -210,3 +210,48 @@ Proof.
     { apply Z.eqb_neq. intro E. apply H2. rewrite E. apply in_map. eapply nth_error_In; eauto. }
     rewrite H0, andb_false_r. rewrite (IH i k (S n)); auto. destruct (k_co k); auto. f_equal; lia.
 Qed.
+
+(** ** the per-call check *)
+Lemma chk_calls_len : forall rs co cs xs t T, chk_calls rs co t cs xs = Some T -> length cs = length xs.
+Proof.
+  induction cs as [|c cs IH]; intros [|x xs] t T H; simpl in *; try discriminate; auto.
+  destruct (chk_call rs co t c x); try discriminate. f_equal. eapply IH; eauto.
+Qed.
+
+Lemma chk_calls_snoc : forall rs co cs xs t c x, length cs = length xs ->
+  chk_calls rs co t (cs ++ [c]) (xs ++ [x]) =
+  match chk_calls rs co t cs xs with
+  | Some t' => chk_call rs co t' c x
+  | None => None
+  end.
+Proof.
+  induction cs as [|c0 cs IH]; intros [|x0 xs] t c x H; simpl in *; try discriminate.
+  - destruct (chk_call rs co t c x); auto.
+  - destruct (chk_call rs co t c0 x0); auto.
+Qed.
+
+Lemma tr_get_upd_same : forall (t : track) r v, (r < length t)%nat -> tr_get (upd r v t) r = v.
+Proof. intros. unfold tr_get. apply nth_upd_same; auto. Qed.
+
+Lemma tr_get_upd_other : forall (t : track) r r' v, r <> r' -> tr_get (upd r v t) r' = tr_get t r'.
+Proof. intros. unfold tr_get. apply nth_upd_other; auto. Qed.
+
+Lemma chk_call_length : forall rs co t c x T, chk_call rs co t c x = Some T -> length T = length t.
+Proof.
+  intros rs co t c x T H. unfold chk_call in H.
+  destruct (tr_get t (c_res c)) as [taken wrote].
+  destruct (classify _ _); destruct x; try discriminate;
+    match type of H with (if ?b then _ else _) = _ => destruct b; try discriminate end;
+    inversion H; subst; auto; apply upd_length.
+Qed.
+
+Lemma chk_calls_length : forall rs co cs xs t T, chk_calls rs co t cs xs = Some T -> length T = length t.
+Proof.
+  induction cs as [|c cs IH]; intros [|x xs] t T H; simpl in *; try discriminate.
+  - inversion H; auto.
+  - destruct (chk_call rs co t c x) eqn:E; try discriminate.
+    rewrite (IH _ _ _ H). eapply chk_call_length; eauto.
+Qed.
+
+Lemma zero_track_length : forall rs, length (zero_track rs) = length rs.
+Proof. intros. unfold zero_track. apply map_length. Qed.
